@@ -778,7 +778,7 @@ PROPS["C03"].update({
                   "and submission-queue capacity == buffer from the MIR of the real sizing functions (z3/cvc5), and "
                   "the used-chunk list against a set model; the end-to-end connection data path did not fit the solver.",
     "level_note": "capacity <= 2, 2 operations of the preempted thread with 1-2 complete operations of the other one "
-                  "(thorough adds capacity-3 sequential histories; deeper schedules exist as tier 'extended', not claimed), SC interleavings only: C11 weak-memory stale "
+                  "(thorough adds capacity-3 sequential histories and the capacity-1 overflow queue under schedules with 3 outer / 2 inner operations; deeper schedules exist as tier 'extended', not claimed), SC interleavings only: C11 weak-memory stale "
                   "reads are outside the claim; zero_copy_connection try_send/receive/release end-to-end is outside "
                   "the claim (44 M variables at the smallest configuration)",
 })
@@ -895,6 +895,7 @@ c05_ev_id_out_of_range
 c13_q_mismatch_buffer_same_role c13_q_race_detach_after_registration_mismatch
 c09_uis_history_cap3 c09_uis_history_cap4
 c03_seq_index_queue_cap3 c03_seq_overflow_queue_cap3 c03_seq_spsc_queue_cap3
+c03_s_overflow_cap1_producer_outer c03_s_overflow_cap1_consumer_outer
 """.split())
 for _p in PROPS:
     for _h in PROPS[_p]["harnesses"]:
